@@ -34,7 +34,7 @@ CHECKS = [
   'design_ref': 'DESIGN.md section 4, C13'},
  {'id': 'C01',
   'text': 'K3: a symbolic chain from genesis (tx hash prefixes, values, marked script bytes, spend selectors, activation '
-          'height symbolic; flush schedule enumerated, incl. flushes right after the last block; some shapes with the flat '
+          'height symbolic; flush schedule enumerated, incl. flushes right after the last block, clean restarts and re-opens for serving in mid-run; some shapes with the flat '
           'files split into physical files of two records) is indexed by the real advance_block/flush_dbs and all_utxos, '
           'lookup_utxos, counts, tip, headers and tx-hash files are proved equal to an independent reference indexer on '
           'every feasible path.  K1: UTXO table layout round trip with every key/value byte of 2-3 records symbolic '
